@@ -488,6 +488,27 @@ func (in *Interp) harnessIntrinsic(fn *ssa.Function, name string, args []Value) 
 			in.callValue(f, nil, nil)
 		}()
 		return true, c.Bool(panicked)
+	case "vLearnBits":
+		// prove x < 2^w under the path condition, then let the simplifier use it
+		x := args[0].(*Term)
+		w := uint8(in.argInt(args[1], "vLearnBits width"))
+		if x.op == OpZext {
+			x = x.a
+		}
+		if in.concrete || x.IsConst() || w >= x.w {
+			return true, nil
+		}
+		hi := c.Extract(x, x.w-1, w)
+		q := c.Not(c.Eq(hi, c.Const(hi.w, 0)))
+		if q.IsConst() {
+			return true, nil
+		}
+		in.checkDeadline()
+		if r, _ := in.sol.Check(q, nil); r == Unsat {
+			in.ctx.learnMaxBits(x, w)
+			in.res.Learned++
+		}
+		return true, nil
 	case "vIsReleased":
 		p := args[0].(SliceV)
 		if p.P.ID == 0 {
